@@ -1,6 +1,175 @@
+(* Property C17 — turmoil-net binds and routes packets like a real socket table.
+   Statements only; proofs in C17_proofs.v.  DESIGN.md section 5 (C17). *)
 From TV.Lib Require Import Base.
 From TV.NetPure Require Import Gen Ip Sock C17_proofs.
 Open Scope N_scope.
-Theorem c17_placeholder : forall k fd, get (remove k fd) fd = get (remove k fd) fd.
-Proof. reflexivity. Qed.
-Print Assumptions c17_placeholder.
+
+(* ---- bind ---------------------------------------------------------------------- *)
+(* Overlap: same (domain, type, port) and equal address or a wildcard on either
+   side.  Conflicts k key: some binding of the table overlaps key.  addr_ok: the
+   address is the wildcard or local (loopback / configured). *)
+
+(* bind to a non-zero port succeeds exactly when the address is acceptable and
+   nothing overlaps; otherwise AddrNotAvailable resp. AddrInUse; the three
+   outcomes are exhaustive and exclusive *)
+Theorem bind_ok_iff : forall k a port t, port <> 0 ->
+  let key := mkkey (dom_of a) t a port in
+  (snd (bind k a port t) = inr (k_nextfd k, port) <-> addr_ok k a /\ ~ Conflicts k key) /\
+  (snd (bind k a port t) = inl AddrNotAvailable <-> ~ addr_ok k a) /\
+  (snd (bind k a port t) = inl AddrInUse <-> addr_ok k a /\ Conflicts k key) /\
+  (forall r, snd (bind k a port t) = inr r -> r = (k_nextfd k, port)).
+Proof. exact bind_ok_iff_lemma. Qed.
+
+Theorem overlap_is_the_conflict_check : forall a b,
+  conflicts a b = true <->
+  b_dom a = b_dom b /\ b_ty a = b_ty b /\ b_port a = b_port b /\
+  (b_addr a = b_addr b \/ is_unspec (b_addr a) = true \/ is_unspec (b_addr b) = true).
+Proof. exact conflicts_spec. Qed.
+
+(* port 0: the port handed out lies in the ephemeral range and is bound at no
+   address for this (domain, type); the bind then succeeds; it fails with
+   AddrInUse only when every port of the range is taken *)
+Theorem port0_free_everywhere : forall k a t, cursor_ok k ->
+  match snd (bind k a 0 t) with
+  | inr (fd, p) => addr_ok k a /\ fd = k_nextfd k /\ eph_lo <= p /\ p <= eph_hi /\ port_free k (dom_of a) t p
+  | inl AddrNotAvailable => ~ addr_ok k a
+  | inl AddrInUse => addr_ok k a /\ forall p, eph_lo <= p -> p <= eph_hi -> ~ port_free k (dom_of a) t p
+  end /\ cursor_ok (fst (bind k a 0 t)).
+Proof. exact bind_port0_lemma. Qed.
+
+(* PortAllocator::allocate on any range lo..=hi and cursor inside it: None iff
+   every port is in use; Some p is the first free port in cyclic order from the
+   cursor, and the cursor moves just past it (wrap-around included) *)
+Theorem port0_none_iff_exhausted : forall lo hi cur in_use, lo <= cur -> cur <= hi ->
+  (fst (allocate lo hi cur in_use) = None <-> forall q, lo <= q <= hi -> in_use q = true).
+Proof. intros. now apply allocate_none_iff. Qed.
+
+Theorem port0_first_free_from_cursor : forall lo hi cur in_use, lo <= cur -> cur <= hi ->
+  match allocate lo hi cur in_use with
+  | (Some p, c) => lo <= p <= hi /\ in_use p = false /\ c = (if p =? hi then lo else p + 1) /\
+                   (forall q, lo <= q <= hi -> dist lo hi cur q < dist lo hi cur p -> in_use q = true)
+  | (None, _) => forall q, lo <= q <= hi -> in_use q = true
+  end.
+Proof. intros. now apply allocate_spec. Qed.
+
+(* ---- close -------------------------------------------------------------------------- *)
+(* SocketTable::remove: the fd disappears from the table, from every binding
+   group and from the connection index; no empty group is left behind; other
+   sockets keep their bindings; a key whose only owner was fd is free again *)
+Theorem close_frees : forall k fd, NoDup (map fst (k_binds k)) ->
+  get (remove k fd) fd = None /\
+  (forall key, ~ In fd (find_by_bind (remove k fd) key)) /\
+  (forall local remote, find_connection (remove k fd) local remote <> Some fd) /\
+  (forall key fds, In (key, fds) (k_binds (remove k fd)) -> fds <> []) /\
+  (forall fd' key, fd' <> fd -> (In fd' (find_by_bind (remove k fd) key) <-> In fd' (find_by_bind k key))) /\
+  (forall fd', fd' <> fd -> get (remove k fd) fd' = get k fd') /\
+  (forall key, find_by_bind k key = [fd] -> ~ In key (keys (remove k fd))).
+Proof.
+  intros k fd Hn. split; [rewrite remove_get, N.eqb_refl; reflexivity|].
+  split; [apply remove_binds_no_fd|]. split; [apply remove_conns|]. split; [apply remove_no_empty|].
+  split; [intros; now apply remove_other_bindings|].
+  split; [intros fd' Hne; rewrite remove_get; apply N.eqb_neq in Hne; now rewrite Hne|].
+  intros; now apply remove_sole_owner_frees.
+Qed.
+
+(* ---- demux -------------------------------------------------------------------------------- *)
+(* a datagram goes to the first socket bound to (dst addr, dst port), else to
+   the first bound to (wildcard, dst port), else nowhere; it is queued only if
+   that socket is unconnected or connected to the sender; no other socket, no
+   index and no queue changes *)
+Theorem udp_demux : forall k p,
+  let d := dom_of (p_dst p) in
+  let exact := find_by_bind k (mkkey d Dgram (p_dst p) (p_dport p)) in
+  let wild := find_by_bind k (mkkey d Dgram (unspec_like (p_dst p)) (p_dport p)) in
+  udp_target k p = match hd_error exact with Some fd => Some fd | None => hd_error wild end /\
+  (forall fd s, udp_target k p = Some fd -> get k fd = Some s ->
+     get (udp_deliver k p) fd =
+       Some (if peer_ok s (p_src p, p_sport p)
+             then sk_queue s (s_queue s ++ [((p_src p, p_sport p), p_id p)]) else s)) /\
+  (forall fd', udp_target k p <> Some fd' -> get (udp_deliver k p) fd' = get k fd') /\
+  (udp_target k p = None -> udp_deliver k p = k) /\
+  k_binds (udp_deliver k p) = k_binds k /\ k_conns (udp_deliver k p) = k_conns k /\ k_out (udp_deliver k p) = k_out k.
+Proof.
+  intros k p. cbn zeta. split; [apply udp_target_spec|]. split; [apply udp_deliver_target|].
+  destruct (udp_deliver_frame k p) as (H1 & H2 & H3 & _ & H5).
+  split; [exact H5|]. split; [apply udp_deliver_no_target|]. auto.
+Qed.
+
+(* a segment goes to the socket indexed under its 4-tuple if there is one; else,
+   only a bare SYN goes to a listener: the first listening socket bound to the
+   exact (addr, port), the wildcard one only if no exact binding listens; else a
+   RST is the answer, unless the segment is itself a RST *)
+Theorem tcp_demux_rule : forall k p,
+  let local := (p_dst p, p_dport p) in
+  let remote := (p_src p, p_sport p) in
+  let bare_syn := has (p_flags p) F_SYN && negb (has (p_flags p) F_ACK) in
+  match tcp_demux k p with
+  | ToConn fd => find_connection k local remote = Some fd
+  | ToListener l =>
+      find_connection k local remote = None /\ bare_syn = true /\ is_listening k l = true /\
+      (In l (find_by_bind k (mkkey (dom_of (p_dst p)) Stream (p_dst p) (p_dport p))) \/
+       (In l (find_by_bind k (mkkey (dom_of (p_dst p)) Stream (unspec_like (p_dst p)) (p_dport p))) /\
+        forall x, In x (find_by_bind k (mkkey (dom_of (p_dst p)) Stream (p_dst p) (p_dport p))) -> is_listening k x = false))
+  | ReplyRst =>
+      find_connection k local remote = None /\
+      ((bare_syn = true /\
+        forall x, In x (find_by_bind k (mkkey (dom_of (p_dst p)) Stream (p_dst p) (p_dport p)) ++
+                        find_by_bind k (mkkey (dom_of (p_dst p)) Stream (unspec_like (p_dst p)) (p_dport p))) ->
+                  is_listening k x = false) \/
+       (bare_syn = false /\ has (p_flags p) F_RST = false))
+  | Silent => find_connection k local remote = None /\ bare_syn = false /\ has (p_flags p) F_RST = true
+  end.
+Proof.
+  intros k p. cbn zeta. pose proof (tcp_demux_spec k p) as H. cbn zeta in H.
+  destruct (tcp_demux k p) as [fd|l| |]; auto.
+  - destruct H as (H1 & H2 & H3). apply find_listener_spec in H3 as [H4 H5]. cbn in H5. auto.
+  - destruct H as (H1 & [[H2 H3]|H2]); split; auto. left. split; auto.
+    apply (find_listener_none k (p_dst p, p_dport p) H3).
+Qed.
+
+(* ---- fabric ----------------------------------------------------------------------------------- *)
+(* Fabric::deliver hands the packet to the one host that owns the destination
+   address and changes no other host; an unknown address changes nothing;
+   Kernel::egress lets nothing with a local destination leave the host *)
+Theorem fabric_route : forall hs p,
+  length (fdeliver hs p) = length hs /\
+  match route hs (p_dst p) with
+  | Some i => (exists k, nth_error hs i = Some k /\ mem_ip (p_dst p) (k_addrs k) = true /\
+                         nth_error (fdeliver hs p) i = Some (kdeliver k p)) /\
+              (forall j, j <> i -> nth_error (fdeliver hs p) j = nth_error hs j)
+  | None => fdeliver hs p = hs /\ forall k, In k hs -> mem_ip (p_dst p) (k_addrs k) = false
+  end.
+Proof. exact fdeliver_spec. Qed.
+
+Theorem egress_keeps_local_traffic_inside : forall fuel k,
+  Forall (fun p => is_local (k_addrs k) (p_dst p) = false) (snd (kegress_k fuel k)).
+Proof. exact kegress_nonlocal. Qed.
+
+(* ---- non-vacuity ---------------------------------------------------------------------------------- *)
+Definition A1 := V4 167772161. (* 10.0.0.1 *)  Definition A2 := V4 167772162. Definition W4 := V4 0.
+Definition k_ex : kern := fst (bind (fst (bind (kern0 [A1; A2]) A1 5000 Dgram)) W4 6000 Dgram).
+Example c17_nonvacuous :
+  snd (bind k_ex A2 5000 Dgram) = inr (3, 5000) /\         (* distinct concrete addresses coexist *)
+  snd (bind k_ex W4 5000 Dgram) = inl AddrInUse /\         (* wildcard against specific *)
+  snd (bind k_ex A1 6000 Dgram) = inl AddrInUse /\         (* specific against wildcard *)
+  snd (bind k_ex A1 5000 Stream) = inr (3, 5000) /\        (* TCP and UDP port spaces are separate *)
+  snd (bind k_ex (V4 167772415) 7000 Dgram) = inl AddrNotAvailable /\
+  snd (bind (remove k_ex 1) W4 5000 Dgram) = inr (3, 5000) /\   (* close frees *)
+  udp_target k_ex (mkpkt 9 (V4 1) A1 0 7 5000 0) = Some 1 /\
+  udp_target k_ex (mkpkt 9 (V4 1) A2 0 7 6000 0) = Some 2 /\
+  udp_target k_ex (mkpkt 9 (V4 1) A2 0 7 5000 0) = None /\
+  fst (allocate 10 12 12 (fun p => p =? 12)) = Some 10 /\        (* wrap-around *)
+  fst (allocate 10 11 10 (fun _ => true)) = None.
+Proof. vm_compute. repeat split; reflexivity. Qed.
+
+Print Assumptions bind_ok_iff.
+Print Assumptions overlap_is_the_conflict_check.
+Print Assumptions port0_free_everywhere.
+Print Assumptions port0_none_iff_exhausted.
+Print Assumptions port0_first_free_from_cursor.
+Print Assumptions close_frees.
+Print Assumptions udp_demux.
+Print Assumptions tcp_demux_rule.
+Print Assumptions fabric_route.
+Print Assumptions egress_keeps_local_traffic_inside.
+Print Assumptions c17_nonvacuous.
